@@ -2286,3 +2286,113 @@ func sqrtRadicandRule(p *core.Program, r *core.Report, rule string, rels ...stri
 		}
 	}
 }
+
+// foldKernels: the methods of Bounds (function literals included) that apply both math.Min and math.Max.
+func foldKernels(p *core.Program) map[*ssa.Function]bool {
+	kernels := map[*ssa.Function]bool{}
+	for _, fn := range pkgFuncs(p, "") {
+		if fn.Signature.Recv() == nil || !strings.Contains(fn.Signature.Recv().Type().String(), "Bounds") {
+			continue
+		}
+		hasMin, hasMax := false, false
+		var scan func(f *ssa.Function)
+		scan = func(f *ssa.Function) {
+			for _, c := range eng.Calls(f) {
+				if eng.IsCallTo(c, "math", "Min") {
+					hasMin = true
+				}
+				if eng.IsCallTo(c, "math", "Max") {
+					hasMax = true
+				}
+			}
+			for _, a := range f.AnonFuncs {
+				scan(a)
+			}
+		}
+		scan(fn)
+		if hasMin && hasMax {
+			kernels[fn] = true
+		}
+	}
+	return kernels
+}
+
+// foldWholeGeometryRule (C08): the box of a geometry is folded over all of its coordinates.
+func foldWholeGeometryRule(p *core.Program, r *core.Report, rule string) {
+	r.Rule(rule, "every call in package geom that hands a flat array to a fold kernel of Bounds passes the geometry's whole array - the result of FlatCoords() on the geometry itself or a load of its flatCoords field, also through a helper that returns exactly that on every path - from offset 0 to len of that same array: a box computed from a part of the coordinates (the shell without the holes, whose Z and M are not bounded by the shell's) is not the minimum and maximum over all coordinates", 3)
+	kernels := foldKernels(p)
+	var whole func(v ssa.Value, depth int) bool
+	whole = func(v ssa.Value, depth int) bool {
+		if depth > 5 {
+			return false
+		}
+		switch x := v.(type) {
+		case *ssa.Call:
+			if o := eng.CalleeObj(x); o != nil && o.Name() == "FlatCoords" && o.Pkg() != nil && o.Pkg().Path() == mod {
+				return true
+			}
+			if callee := x.Call.StaticCallee(); callee != nil && core.InModule(callee) && callee.Blocks != nil {
+				for _, b := range callee.Blocks {
+					if ret, ok := b.Instrs[len(b.Instrs)-1].(*ssa.Return); ok {
+						if len(ret.Results) != 1 || !whole(ret.Results[0], depth+1) {
+							return false
+						}
+					}
+				}
+				return true
+			}
+		case *ssa.UnOp:
+			if _, path, ok := fieldLoad(x); ok && strings.HasSuffix(path, ".flatCoords") {
+				return true
+			}
+		case *ssa.Phi:
+			for _, e := range x.Edges {
+				if !whole(e, depth+1) {
+					return false
+				}
+			}
+			return true
+		case *ssa.ChangeType:
+			return whole(x.X, depth+1)
+		}
+		return false
+	}
+	n := 0
+	for _, fn := range pkgFuncs(p, "") {
+		for _, c := range eng.Calls(fn) {
+			cal := eng.StaticCallee(c)
+			if !kernels[cal] || kernels[fn] && fn == cal {
+				continue
+			}
+			args := c.Common().Args
+			ai := -1
+			for i, a := range args {
+				if i > 0 && isFloatSlice(a.Type()) {
+					ai = i
+				}
+			}
+			if ai < 0 || ai+2 >= len(args) {
+				continue
+			}
+			if kernels[fn] {
+				continue // a kernel handing its own range on to another kernel
+			}
+			n++
+			key := fmt.Sprintf("%s->%s#%d", short(fn), cal.Name(), n)
+			bad := ""
+			switch {
+			case !whole(args[ai], 0):
+				bad = "the array handed to " + cal.Name() + " (" + args[ai].String() + ") is not the geometry's whole flat array"
+			default:
+				if k, ok := eng.ConstInt(args[ai+1]); !ok || k != 0 {
+					bad = "the fold does not start at offset 0"
+				}
+				lx, isLen := eng.LenOf(args[ai+2])
+				if bad == "" && (!isLen || !whole(lx, 0)) {
+					bad = "the fold does not run to len() of the geometry's whole flat array"
+				}
+			}
+			r.Check(bad == "", rule, key, p.Pos(c.Pos()), true, "whole array, 0 .. len", bad)
+		}
+	}
+}
